@@ -283,6 +283,7 @@ Definition run_conn_op (id : N) (i : nat) (k : cst) (op : arg) : cst * list byte
       (mkCst c' (k_rest k) (k_nextfd k), [pre ++ B"clr pend=" ++ bit (pending_write c')])
   | AL [AN 10; AN n] =>
       (mkCst (set_payload_max_size c n) (k_rest k) (k_nextfd k), [pre ++ B"lim"])
+  | AL [AN 12] => (k, [])
   | _ => (k, [pre ++ B"?"])
   end.
 
